@@ -7,10 +7,11 @@
         positions are in range and pairwise distinct; the meaning of a positive-step slice.
      C. __getitem__: X[idx] has the keys of X in the same order and holds for every key exactly
         values[key][idx], for the three storage kinds; which subscripts raise.
-     D. __setitem__: frame (whatever happens, only addressed entries of a coefficient can change), exactness
-        and the getitem-after-setitem round trip for a multivector whose coefficients have the addressed
-        shape, scalar broadcast for list storage, setitem-of-getitem is the identity; the storage-dependent
-        broadcast of scalar coefficients into an ndarray slice (witness).
+     D. __setitem__ (the code after kingdon 76adadb: blade by blade for every storage kind): frame (whatever
+        happens, only addressed entries of a coefficient can change), exactness and the getitem-after-setitem
+        round trip, with V's coefficients broadcast to the addressed shape of their own blade (aligned
+        coefficients are stored as they are, numbers are repeated), when it succeeds and what it raises,
+        setitem-of-getitem is the identity, other keys are refused.
      E. operands: call_binary with enough fuel equals a fuel-free structural specification
         (eval_tree (denote l) (denote r)); scalar wrapping, sequences on either side, nested callables and
         their compositions are corollaries.
